@@ -219,6 +219,15 @@ class FunctionRun:
         self.lemmas_used = set()
 
 
+def _clauses(thunk, what):
+    """Evaluate the clauses of a contract against the (possibly changed) code: a clause that no longer binds to it - it names
+    something the code does not have, or uses a value at a type the code no longer gives it - is a FAILED obligation."""
+    try:
+        return thunk()
+    except (BindingError, TypeError, z3.Z3Exception) as ex:
+        return [(f"the {what} binds to the code ({type(ex).__name__}: {str(ex)[:160]})", z3.BoolVal(False))]
+
+
 def generate(contract, registry=REG, finite=None, grid=None):
     """Symbolically execute the real function and return a FunctionRun with its VCs."""
     run = FunctionRun(contract)
@@ -243,9 +252,17 @@ def generate(contract, registry=REG, finite=None, grid=None):
                 raise Unsupported("**kwargs in a verified function (give a {name: spec} dict for a fixed set of keywords)")
             params.append(fn.args.kwarg.arg)
             run.assumptions.add(f"{contract.key}: verified for the keyword set {sorted(contract.params[fn.args.kwarg.arg])} of **{fn.args.kwarg.arg}")
+        new_params = []
         for p in params:
             if p not in contract.params:
-                raise BindingError(f"parameter {p} of {contract.key} has no spec in the contract")
+                # the (changed) function has a parameter the contract does not know: it is bound to an arbitrary value (a caller may
+                # pass anything) and the mismatch is a failed obligation, not a checker error
+                if not contract.params:
+                    raise BindingError(f"parameter {p} of {contract.key} has no spec in the contract")
+                new_params.append(p)
+                v, st = make_symbolic(eng, p, "V", st, run.assumptions)
+                st = st.bind(p, v)
+                continue
             v, st = make_symbolic(eng, p, contract.params[p], st, run.assumptions)
             st = st.bind(p, v)
         for p in contract.params:
@@ -274,6 +291,9 @@ def generate(contract, registry=REG, finite=None, grid=None):
         entry.pc = list(st.pc)
         fninfo = {"ordinals": loop_ordinals(fn), "entry": entry, "node": fn}
         paths = [0]
+        for p in new_params:
+            eng.oblige("contract-shape", f"the function has the signature the contract was written for (parameter '{p}' is not in the "
+                                         f"contract; it is treated as an arbitrary value)", St(entry.env, entry.heap, [], {}), z3.BoolVal(False), fn)
 
         def exit_ns(s):
             """Namespace for exit clauses: a.<param> is the ENTRY binding (contents as of now); the current
@@ -289,7 +309,7 @@ def generate(contract, registry=REG, finite=None, grid=None):
             ns = exit_ns(s)
             res = eng.resolve(v, s.heap)
             if contract.ensures is not None:
-                eng.oblige_clauses("postcondition", "return", s, contract.ensures(S, ns, res), None)
+                eng.oblige_clauses("postcondition", "return", s, _clauses(lambda: contract.ensures(S, ns, res), "postcondition"), None)
             eng.canary("return", s)
 
         def on_raise(exc, s):
@@ -311,7 +331,7 @@ def generate(contract, registry=REG, finite=None, grid=None):
                 eng.oblige("exceptional", f"raise {exc.cls} only when allowed", s, S.b(cond(S, ens)))
                 if contract.exc_ensures is not None:
                     eng.oblige_clauses("exceptional", f"state after raise {exc.cls}", s,
-                                       contract.exc_ensures(S, ns, exc))
+                                       _clauses(lambda: contract.exc_ensures(S, ns, exc), "exceptional postcondition"))
                 if exc.origin == "stmt":  # a raise statement of this function must be reachable
                     eng.canary(f"raise {exc.cls}", s)
 
